@@ -214,7 +214,7 @@ class SolverWrapper:
                         self.solver.changeColsLower(len(idxs), idxs, lbs)
                     else:
                         # As a conservative fallback, raise LB via changeColsBounds using current UBs fetched via getCols
-                        status, nret, lowers, uppers, costs, nnz = self.solver.getCols(len(idxs), idxs)
+                        status, nret, costs, lowers, uppers, nnz = self.solver.getCols(len(idxs), idxs)
                         # Use returned uppers in the same order as idxs
                         current_ubs = uppers.astype(np.float64, copy=False)
                         self.solver.changeColsBounds(len(idxs), idxs, lbs, current_ubs)
